@@ -299,49 +299,74 @@ def observe(rs, plan, rng, rich=True, fold=False, nsv=4, nq=6):
         ops = order_records(circ, cons)
     dim = int(np.prod(rs))
     case = {'kind': 'circ', 'r': list(rs), 'ops': ops, 'alt': alt, 'chk_alt': bool(dim <= 300 and (fold or ops != cons)),
-            'folded': bool(fold), 'nops': len(cons)}
+            'folded': bool(fold), 'nops': len(cons), 'raised': []}
+    # typed defaults for everything observed below (a call that raises leaves its default and is recorded in `raised`)
+    case.update(u=NOOBS, own=NOOBS, sv=[], has_ug=False, ug=DUMMY, ug_exp=DUMMY, it=[], ncyc=0, nparams=0, params0=[], locs=[], queries=[],
+                v2=[], u_exp=DUMMY, sv_exp=[], params_untouched=[], params_set=[], opp_set=[[] for _ in ops], u_set=DUMMY,
+                getp=[], setp=[], v3=[], u_setp=DUMMY, chk3=False, frz={'i': -1, 'nparams': 0, 'params': [], 'u': DUMMY, 'it': []})
+    stage = ['get_unitary', 'get_unitary']          # [clause, call] of the call being observed
+    try:
+        _observe(case, circ, ops, rs, rng, rich, nsv, nq, dim, stage)
+    except common.MachineryError:
+        raise
+    except Exception as e:          # a documented call on a valid circuit raised: that is an observation, judged under the call's clause
+        case['raised'].append({'clause': stage[0], 'call': stage[1], 'err': repr(e)[:300]})
+    return case
+
+
+def _observe(case, circ, ops, rs, rng, rich, nsv, nq, dim, stage):
+    def at(clause, call):
+        stage[0], stage[1] = clause, call
+    at('get_unitary', 'get_unitary')
     case['u'] = tab(circ.get_unitary().numpy)
+    at('own-product', 'Operation.get_unitary')
     case['own'] = tab(exact.own_unitary(circ))
+    at('get_statevector', 'get_statevector')
     case['sv'] = sv_obs(circ, rs, rng, nsv)
-    case['has_ug'] = False
-    case['ug'] = DUMMY
-    case['ug_exp'] = DUMMY
     if rich and dim <= 128:
+        at('unitary_and_grad-value', 'get_unitary_and_grad')
         try:
             case['ug'] = tab(circ.get_unitary_and_grad()[0])
             case['has_ug'] = True
         except NotImplementedError:
             pass
+    at('restricted-iteration', 'operations_with_cycles')
     case['it'] = grid_of(circ)
     case['ncyc'] = int(circ.num_cycles)
+    at('param-vector', 'params')
     case['nparams'] = int(circ.num_params)
     case['params0'] = qints(circ.params)
+    case['params_untouched'] = case['params0']
     N = case['nparams']
-    case['locs'] = []
+    at('param-vector', 'get_param_location')
     for i in range(N):
         c, q, k = circ.get_param_location(i)
         case['locs'].append({'c': int(c), 'q': int(q), 'k': int(k)})
+    at('restricted-iteration', 'operations')
     case['queries'] = queries_of(circ, rs, rng, nq) if rich else []
-    # defaults for the parameter part
-    case.update(v2=[], u_exp=DUMMY, sv_exp=[], params_untouched=case['params0'], params_set=[], opp_set=[[] for _ in ops], u_set=DUMMY,
-                getp=[], setp=[], v3=[], u_setp=DUMMY, chk3=False, frz={'i': -1, 'nparams': 0, 'params': [], 'u': DUMMY, 'it': []})
     if N == 0 or len(leaf_params(ops)) != N:
-        return case
+        return
     v2 = new_vector(rng, ops)
     case['v2'] = v2
+    at('explicit-params', 'get_unitary(params)')
     case['u_exp'] = tab(circ.get_unitary(reals(v2)).numpy)
+    at('explicit-params', 'get_statevector(state, params)')
     case['sv_exp'] = sv_obs(circ, rs, rng, 2, reals(v2))
     if case['has_ug']:
+        at('explicit-params', 'get_unitary_and_grad(params)')
         case['ug_exp'] = tab(circ.get_unitary_and_grad(reals(v2))[0])
     case['params_untouched'] = qints(circ.params)
+    at('param-vector', 'set_params')
     circ.set_params(reals(v2))
     case['params_set'] = qints(circ.params)
     case['opp_set'] = [qints(op.params) for op in circ]
     case['u_set'] = tab(circ.get_unitary().numpy)
+    at('param-vector', 'get_param')
     case['getp'] = [qint(circ.get_param(i)) for i in range(N)]
     leaves = leaf_params(ops)
     cur = list(v2)
     setp = []
+    at('param-vector', 'set_param')
     for i in (rng.sample(range(N), min(N, 3)) if rich else []):
         r, pos = leaves[i]
         x = fresh_params(rng, r)[pos - nargs(r)]
@@ -353,11 +378,11 @@ def observe(rs, plan, rng, rich=True, fold=False, nsv=4, nq=6):
     case['chk3'] = bool(rich)
     case['u_setp'] = tab(circ.get_unitary().numpy) if rich else DUMMY
     if rich:
+        at('param-vector', 'freeze_param')
         i = rng.randrange(N)
         c2 = circ.copy()
         c2.freeze_param(i)
         case['frz'] = {'i': i, 'nparams': int(c2.num_params), 'params': qints(c2.params), 'u': tab(c2.get_unitary().numpy), 'it': grid_of(c2)}
-    return case
 
 
 def try_fold(circ, rng):
